@@ -79,6 +79,10 @@ class NgramTokenizer(Tokenizer):
 
         if mode == "query":
             size = min(self.max, inlen)
+            # Text shorter than the minimum size has no N-grams in the index
+            # either (like NgramFilter, which skips such words in both modes)
+            if size < self.min:
+                return
             for start in xrange(0, inlen - size + 1):
                 end = start + size
                 if end > inlen:
